@@ -80,6 +80,16 @@ Definition chk_VF2 (r : res (list Q * list Q)) (e : option (list xq * list xq)) 
   | _, _ => false
   end.
 
+Definition chk_VF3 (r : res (list Q * list Q * list Q)) (e : option (list xq * list xq * list xq)) : bool :=
+  match r, e with
+  | Ok (a1, a2, a3), Some (b1, b2, b3) => chk_VF (Ok a1) (Some b1) && chk_VF (Ok a2) (Some b2) && chk_VF (Ok a3) (Some b3)
+  | Err _, None => true
+  | Err _, Some (b1, b2, b3) => any_bad b1 || any_bad b2 || any_bad b3
+  | _, _ => false
+  end.
+(* a finite-valued view of an Ext-valued penalty value (the prox-Newton line search subtracts penalty values) *)
+Definition fin_of (r : res (Ext Q)) : res Q := match r with Ok (Fin v) => Ok v | Ok PInf => Err Dom | Err e => Err e end.
+
 Definition chk_F2 (r : res (Q * Q)) (e : option (xq * xq)) : bool :=
   match r, e with
   | Ok (a, b), Some (x, y) => chk_F (Ok a) x && chk_F (Ok b) y
